@@ -2067,10 +2067,6 @@ func (p *Posix) ListMultipartUploads(_ context.Context, mpu *s3.ListMultipartUpl
 			if !uploadIdMarkerFound && uploadIDMarker == uploadID {
 				uploadIdMarkerFound = true
 			}
-			if keyMarkerInd == -1 && objectName == keyMarker {
-				keyMarkerInd = len(uploads)
-			}
-
 			checksum, err := p.retrieveChecksums(nil, bucket, filepath.Join(metaTmpMultipartDir, obj.Name(), uploadID))
 			if err != nil && !errors.Is(err, meta.ErrNoSuchKey) {
 				return lmu, fmt.Errorf("get mp checksum: %w", err)
@@ -2087,6 +2083,17 @@ func (p *Posix) ListMultipartUploads(_ context.Context, mpu *s3.ListMultipartUpl
 		}
 	}
 
+	sort.SliceStable(uploads, func(i, j int) bool {
+		return uploads[i].Key < uploads[j].Key
+	})
+	// the key marker is located in the sorted list, which is the one paged through
+	for i := range uploads {
+		if uploads[i].Key == keyMarker {
+			keyMarkerInd = i
+			break
+		}
+	}
+
 	maxUploads := int(*mpu.MaxUploads)
 	if (uploadIDMarker != "" && !uploadIdMarkerFound) || (keyMarker != "" && keyMarkerInd == -1) {
 		return s3response.ListMultipartUploadsResult{
@@ -2099,10 +2106,6 @@ func (p *Posix) ListMultipartUploads(_ context.Context, mpu *s3.ListMultipartUpl
 			Uploads:        []s3response.Upload{},
 		}, nil
 	}
-
-	sort.SliceStable(uploads, func(i, j int) bool {
-		return uploads[i].Key < uploads[j].Key
-	})
 
 	for i := keyMarkerInd + 1; i < len(uploads); i++ {
 		if maxUploads == 0 {
@@ -2117,8 +2120,8 @@ func (p *Posix) ListMultipartUploads(_ context.Context, mpu *s3.ListMultipartUpl
 				Delimiter:          delimiter,
 				KeyMarker:          keyMarker,
 				MaxUploads:         maxUploads,
-				NextKeyMarker:      resultUpds[i-1].Key,
-				NextUploadIDMarker: resultUpds[i-1].UploadID,
+				NextKeyMarker:      resultUpds[len(resultUpds)-1].Key,
+				NextUploadIDMarker: resultUpds[len(resultUpds)-1].UploadID,
 				IsTruncated:        true,
 				Prefix:             prefix,
 				UploadIDMarker:     uploadIDMarker,
